@@ -388,7 +388,7 @@ def nontrivial(case: dict[str, Any]) -> bool:
 
 
 def shards(tier: str) -> list[dict[str, Any]]:
-    n = 4 if tier == "quick" else 40
+    n = 4 if tier == "quick" else 100
     out = []
     for level in ("transport", "transport", "client", "client", "wait", "wait"):
         for proto_group in (["tcp-lines", "unix-lines"], ["doip"], ["hsfz"]):
